@@ -15,11 +15,16 @@ var zzErrUserClose = errors.New("zz: closed by user")
 // payload must have been handed to it and flushed, and no batch write may be in progress.
 // For bounded-wait channels (until == 0) this is required only if the closer slept less than the documented
 // grace period (10 x 100 ms).
+//
+//	closeKind: 0 plain error, 1 nil, 2 timeout net.Error, 3 wrapped net.Error, 4 the parent context is cancelled
+//	           before Close (Shutdown order), 5 concurrently with it
 func ZZ_C06_Close(q, until, nw, ww, wwOther, entries, closeKind int) {
 	tr := newZZTransport()
 	tr.yield = true
 	pl := NewPipeline()
-	ch := zzNewChannel(pl, tr, q, until != 0)
+	parent, cancelParent := context.WithCancel(context.Background())
+	ch := newChannelWith(parent, pl, tr, AsyncExecutor(), 1, q, until != 0).(*channel)
+	pl.(*pipeline).channel = ch
 	g := &zzGhost{n: ww + (nw-1)*wwOther, content: "c01", sent: "c06-accepted-payload-sent-before-close"}
 	done := make(chan struct{}, nw)
 	for w := 0; w < nw; w++ {
@@ -75,6 +80,12 @@ func ZZ_C06_Close(q, until, nw, ww, wwOther, entries, closeKind int) {
 		closeErr = fmt.Errorf("wrapped: %w", &zzNetErr{timeout: false})
 	}
 	vrt.Facet("closekind", closeKind)
+	switch closeKind {
+	case 4:
+		cancelParent() // what Bootstrap.Shutdown does before it closes the channels
+	case 5:
+		vrt.Go("shutdown", cancelParent)
+	}
 	ch.Close(closeErr)
 	vrt.Assert(!ch.IsActive(), "c06-inactive-after-close")
 	dead := vrt.Quiesce()
